@@ -34,9 +34,9 @@ import (
 	"verif.local/simkit/ref"
 )
 
-const crashUniverse = 8
+const crashUniverse = 11
 
-// crashID: a small universe of identifiers. 6 and 7 repeat the emitter and sequence of 3 and 0 with
+// crashID: a small universe of identifiers. 8-10 continue the stream of 0. 6 and 7 repeat the emitter and sequence of 3 and 0 with
 // another target chain (one of each pair addresses target chain 0, "all chains"): sequences count
 // per target chain, so these are four different messages.
 func crashID(i int64) vaa.VAAID {
@@ -49,6 +49,9 @@ func crashID(i int64) vaa.VAAID {
 		return vaa.VAAID{EmitterChain: 255, EmitterAddress: vaa.Address{0xaa, 1}, TargetChain: 2, Sequence: 0}
 	case 7:
 		return vaa.VAAID{EmitterChain: 2, EmitterAddress: vaa.Address{0xaa, 0}, TargetChain: 0, Sequence: 0}
+	case 8, 9, 10:
+		// the stream of identifier 0 goes on to sequences 9, 10 and 11 (two-digit numbers sort before 9 as text)
+		return vaa.VAAID{EmitterChain: 2, EmitterAddress: vaa.Address{0xaa, 0}, TargetChain: 255, Sequence: uint64(i + 1)}
 	}
 	return vaa.VAAID{EmitterChain: vaa.ChainID([]uint16{2, 255, 2, 255, 10, 2}[i]), EmitterAddress: vaa.Address{0xaa, byte(i / 3)}, TargetChain: vaa.ChainID([]uint16{255, 2, 25, 0, 2, 255}[i]), Sequence: uint64(i % 3)}
 }
